@@ -30,6 +30,10 @@ THEOREMS = [
     'Nb.C08.pair_prefix_header',
     'Nb.C08.pair_prefix_image',
     'Nb.C08.pair_ext_prefix',
+    'Nb.C08.pair_prefix_header_at',
+    'Nb.C08.pair_prefix_image_at',
+    'Nb.C08.pair_slice_prefix',
+    'Nb.C08.pair_tail_prefix',
     'Nb.C08.single_strict_prefix',
     'Nb.C08.cifti_prefix',
     'Nb.C08.mgh_prefix',
@@ -40,6 +44,9 @@ THEOREMS = [
     'Nb.C08.tck_prefix',
     'Nb.C08.tck_header_scan_sound',
     'Nb.C08.tck_data_prefix',
+    'Nb.C08.tck_chunked_eq',
+    'Nb.C08.tck_prefix_chunked',
+    'Nb.C08.tck_prefix_shipped_buffer',
     'Nb.C08.xml_prefix',
     'Nb.C08.codec_lift',
     'Nb.C08.codec_lift_volume',
@@ -61,12 +68,23 @@ ASSUMPTIONS = [
     'extension and is covered by the volume model)',
     'np.memmap refuses (ValueError) a map longer than the file; OS mmap / page cache are not modelled',
     'nibabel cannot WRITE compressed TCK/TRK (seek in write mode) so tractograms are swept uncompressed only',
+    'TCK chunk loop: modelled (tckChunkLoop) and proved equal to the whole-buffer model for every buffer size that is a '
+    'positive multiple of 12; the shipped buffer size is MEASURED by regen() (recording file object) and re-checked by '
+    'the proof; the real loop is run with small buffers by changing the default of TckFile._read at run time',
+    'an exception raised while canonicalising what nibabel RETURNED (e.g. a GIFTI data array without data) is classified '
+    'DIFFERENT, not exception',
 ]
-RULE = ('one case = (file spec, member, compression, mode, cut k); mode: volumes mmap=True | mmap=False | partial read '
-        'dataobj[..., -1] (fileslice/read_segments); tractograms lazy | eager. Quick: every prefix of every small file '
-        '(plain and compressed), boundaries +-2 and a random sample for the larger image; thorough: every prefix of '
-        'several random specs per class. Non-trivial when 0 < k < len; distinct by (format, shape/streamline '
-        'layout, compression, member, mode, k).')
+RULE = ('one case = (file spec, member, compression, mode, cut k[, access variant]); mode: volumes mmap=True | mmap=False | '
+        'partial read dataobj[..., -1] | multi-segment dataobj[slicer] (fileslice/read_segments); tractograms lazy | eager. '
+        'Streams: prefix (every prefix of every small file, plain and compressed; GIFTI .gii/.gii.gz every cut), large, '
+        'multi-segment, access (get_fdata / get_fdata(float32) / get_unscaled / np.asarray, keep_file_open, mmap="r", '
+        'Class.from_filename, pathlib, pair opened through the other member x big-endian headers, data offset beyond the '
+        'minimum for single files AND pairs, 4D, extensions; cut at every structural boundary +-1), multi-segment-more '
+        '(pairs: header and image member, CIFTI-2 (oracle only), keep_file_open), tck-chunked (the chunk loop of '
+        'TckFile._read run with 12..60-byte buffers: every cut of the data part, lazy/eager/class loader/file '
+        'object/.streamlines pass), trk-access (scalars x properties, point-row boundaries of every record +-2). '
+        'Thorough: every prefix of several random specs per class. Non-trivial when 0 < k < len; distinct by (format, '
+        'shape/streamline layout, compression, member, mode, access, byte order, offset, k).')
 
 warnings.simplefilter('ignore')
 
@@ -113,6 +131,12 @@ def make_array(spec):
     return (rs.randint(-1000, 1000, size=shape) / 8).astype(dt)
 
 
+def cifti_data(spec):
+    rs = np.random.RandomState(spec.get('seed', 0))
+    nser, nvert = spec['shape']
+    return (rs.randint(-1000, 1000, size=(nser, nvert)) / 8).astype('f4')
+
+
 def make_streamlines(spec):
     rs = np.random.RandomState(spec.get('seed', 0))
     return [(rs.randint(-400, 400, size=(n, 3)) / 4).astype('f4') for n in spec['npts']]
@@ -134,10 +158,21 @@ def write_files(spec, d):
     fmt, comp = spec['fmt'], spec.get('comp', '')
     if fmt in VOLS and fmt != 'cifti2':
         arr = make_array(spec)
-        img = klass_of(fmt)(arr, np.diag([2., 3., 4., 1.]))
+        K = klass_of(fmt)
+        if spec.get('endian') and fmt != 'mgh':     # header (and so the file) in the stated byte order
+            img = K(arr, np.diag([2., 3., 4., 1.]), header=K.header_class(endianness=spec['endian']))
+        else:
+            img = K(arr, np.diag([2., 3., 4., 1.]))
         for i, n in enumerate(spec.get('exts', [])):
             img.header.extensions.append(
                 nib.nifti1.Nifti1Extension('comment', bytes((65 + (i + j) % 26) for j in range(n))))
+        if spec.get('pad') and fmt != 'mgh':
+            # data at a larger-than-minimal offset: `pad` zero bytes between header part and data (single
+            # files) / at the start of the image file (pairs)
+            base = 0
+            if fmt not in PAIRS:
+                base = K.header_class.template_dtype.itemsize + 4 + sum(-(-(8 + n) // 16) * 16 for n in spec.get('exts', []))
+            img.header.set_data_offset(base + spec['pad'])
         expect = canon_arr(arr)
         _SLAB[spec_key(spec)] = canon_arr(arr[..., -1])
         if fmt == 'mgh':
@@ -153,11 +188,10 @@ def write_files(spec, d):
         return {'image': p}, expect
     if fmt == 'cifti2':
         from nibabel import cifti2 as ci
-        rs = np.random.RandomState(spec.get('seed', 0))
         nser, nvert = spec['shape']
         bm = ci.BrainModelAxis.from_mask(np.ones(nvert, bool), name='cortex_left')
         ax0 = ci.ScalarAxis(['s%d' % i for i in range(nser)])
-        data = (rs.randint(-1000, 1000, size=(nser, nvert)) / 8).astype('f4')
+        data = cifti_data(spec)
         img = ci.Cifti2Image(data, (ax0, bm))
         p = os.path.join(d, 'f.dscalar.nii')
         img.to_filename(p)
@@ -180,6 +214,7 @@ def write_files(spec, d):
         sls = make_streamlines(spec)
         kw = {}
         out = [b'%d' % len(sls)] + [canon_arr(s) for s in sls]
+        _SLAB[spec_key(spec)] = b'|'.join(out)        # the streamlines alone (lazy `.streamlines` pass)
         if fmt == 'trk':
             nsc, npr = spec.get('nsc', 0), spec.get('npr', 0)
             rs = np.random.RandomState(spec.get('seed', 0) + 1)
@@ -237,52 +272,133 @@ def fmt_slicer(sl):
                     for i in sl)
 
 
-def touch(spec, path, mode, slicer=None):
-    """Load the file at `path` with the real nibabel and read all its data; canonical bytes."""
+def other_member(path):
+    """the file name of the other member of a pair (`f.img[.gz]` <-> `f.hdr[.gz]`)"""
+    d, b = os.path.split(path)
+    return os.path.join(d, b.replace('f.img', 'f.HDR').replace('f.hdr', 'f.img').replace('f.HDR', 'f.hdr'))
+
+
+def read_raw(spec, path, mode, slicer=None, how=''):
+    """Load the file at `path` with the real nibabel and read all its data (nibabel calls only): the objects
+    nibabel handed back.  `how`: '+'-joined access variants — volumes: fdata | fdata32 | unscaled | asarray
+    (what is called to get the array), kfo (keep_file_open=True), mmr (mmap='r' where mmap is on), cls
+    (Class.from_filename instead of nib.load), plib (pathlib.Path), cross (pair opened through the other
+    member's name); tractograms: cls (TckFile/TrkFile.load), fobj (an open file object), strm (lazy:
+    consume `.streamlines` instead of the items), buf<N> (TCK: `_read` buffer of N bytes)."""
     nib = _nib()
     fmt = spec['fmt']
+    flags = set(how.split('+')) if how else set()
     if fmt in ('tck', 'trk'):
         import nibabel.streamlines as nst
-        tf = nst.load(path, lazy_load=bool(mode))
-        tr = tf.tractogram
-        if mode:
-            items = list(tr)                       # lazy: one pass yields everything
+        K = nst.TckFile if fmt == 'tck' else nst.TrkFile
+        restore = None
+        for fl in flags:
+            if fl.startswith('buf'):
+                fn = K._read.__func__
+                restore = (fn, fn.__defaults__)
+                fn.__defaults__ = ((int(fl[3:]) - 12) / 2 ** 20,)
+        fobj = None
+        try:
+            src = path
+            if 'fobj' in flags:
+                src = fobj = open(path, 'rb')
+            tf = (K.load if 'cls' in flags or 'fobj' in flags else nst.load)(src, lazy_load=bool(mode))
+            tr = tf.tractogram
+            if mode:
+                if 'strm' in flags:
+                    return {'lazy': True, 'streamlines': list(tr.streamlines), 'items': None}
+                return {'lazy': True, 'items': list(tr)}      # lazy: one pass yields everything
+            return {'lazy': False, 'streamlines': list(tr.streamlines),
+                    'dpp': {k: list(v) for k, v in tr.data_per_point.items()},
+                    'dps': {k: list(v) for k, v in tr.data_per_streamline.items()}}
+        finally:
+            if restore:
+                restore[0].__defaults__ = restore[1]
+            if fobj is not None:
+                fobj.close()
+    if fmt == 'gifti':
+        img = nib.load(path)
+        return [a.data for a in img.darrays]
+    mm = mode in (1, 4)
+    if mm and 'mmr' in flags:
+        mm = 'r'
+    kw = {'mmap': mm}
+    if 'kfo' in flags:
+        kw['keep_file_open'] = True
+    if 'cross' in flags:
+        path = other_member(path)
+    if 'plib' in flags:
+        import pathlib
+        path = pathlib.Path(path)
+    if fmt == 'cifti2' and not how and mode == 0:
+        img = nib.load(path)
+    elif 'cls' in flags:
+        img = klass_of(fmt).from_filename(path, **kw)
+    else:
+        img = nib.load(path, **kw)
+    if mode == 2:
+        return img.dataobj[..., -1]                    # partial read: fileslice -> read_segments
+    if mode in (3, 4):
+        return img.dataobj[slicer_of(slicer)]          # partial read split into several segments
+    if 'fdata' in flags:
+        return img.get_fdata()
+    if 'fdata32' in flags:
+        return img.get_fdata(dtype=np.float32)
+    if 'unscaled' in flags:
+        return img.dataobj.get_unscaled()
+    if 'asarray' in flags:
+        return np.asarray(img.dataobj)
+    return np.asanyarray(img.dataobj)
+
+
+def canon(spec, got):
+    """canonical bytes of what `read_raw` returned (our code: a failure here means nibabel handed back
+    something that is not the data — classified DIFFERENT, not 'exception')"""
+    fmt = spec['fmt']
+    if fmt in ('tck', 'trk'):
+        if got['lazy']:
+            items = got['items']
+            if items is None:
+                sl = [np.asarray(x) for x in got['streamlines']]
+                return b'|'.join([b'%d' % len(sl)] + [canon_arr(x) for x in sl])
             sl = [np.asarray(it.streamline) for it in items]
-            out = [b'%d' % len(sl)] + [canon_arr(s) for s in sl]
+            out = [b'%d' % len(sl)] + [canon_arr(x) for x in sl]
             if fmt == 'trk':
                 for name, get in (('fa', lambda it: it.data_for_points), ('m', lambda it: it.data_for_streamline)):
                     if items and name in get(items[0]):
                         out += [name.encode()] + [canon_arr(get(it)[name]) for it in items]
             return b'|'.join(out)
-        sl = [np.asarray(s) for s in tr.streamlines]
-        out = [b'%d' % len(sl)] + [canon_arr(s) for s in sl]
+        sl = [np.asarray(x) for x in got['streamlines']]
+        out = [b'%d' % len(sl)] + [canon_arr(x) for x in sl]
         if fmt == 'trk':
-            for d_ in (tr.data_per_point, tr.data_per_streamline):
+            for d_ in (got['dpp'], got['dps']):
                 for k in sorted(d_.keys()):
                     out += [k.encode()] + [canon_arr(x) for x in d_[k]]
         return b'|'.join(out)
     if fmt == 'gifti':
-        img = nib.load(path)
-        return b'|'.join([b'%d' % len(img.darrays)] + [canon_arr(a.data) for a in img.darrays])
-    if fmt == 'cifti2':
-        img = nib.load(path)
-    elif mode == 2:
-        img = nib.load(path, mmap=False)
-        return canon_arr(img.dataobj[..., -1])       # partial read: fileslice -> read_segments
-    elif mode in (3, 4):
-        img = nib.load(path, mmap=(mode == 4))       # partial read split into several segments
-        return canon_arr(img.dataobj[slicer_of(slicer)])
-    else:
-        img = nib.load(path, mmap=bool(mode))
-    return canon_arr(np.asanyarray(img.dataobj))
+        for a in got:
+            if not isinstance(a, np.ndarray):
+                raise TypeError('darray without data: %r' % type(a))
+        return b'|'.join([b'%d' % len(got)] + [canon_arr(a) for a in got])
+    if not isinstance(got, np.ndarray):
+        raise TypeError('not an array: %r' % type(got))
+    return canon_arr(got)
 
 
-def _classify(spec, path, mode, expect, slicer=None):
+def touch(spec, path, mode, slicer=None, how=''):
+    return canon(spec, read_raw(spec, path, mode, slicer, how))
+
+
+def _classify(spec, path, mode, expect, slicer=None, how=''):
     try:
-        got = touch(spec, path, mode, slicer)
+        got = read_raw(spec, path, mode, slicer, how)
     except Exception as e:  # noqa: BLE001 — any refusal is an acceptable outcome
         return 'X', type(e).__name__
-    return ('E' if got == expect else 'D'), ''
+    try:
+        c = canon(spec, got)
+    except Exception as e:  # noqa: BLE001 — nibabel returned without error, but not the data
+        return 'D', 'returned object is not the data: %s' % (repr(e)[:120],)
+    return ('E' if c == expect else 'D'), ''
 
 
 def _worker(conn):
@@ -444,14 +560,16 @@ def vol_layout(spec):
     else:
         hs, sniff = K.header_class.template_dtype.itemsize, K._meta_sniff_len
     two = fmt in ('nifti2', 'nifti2pair', 'cifti2')
+    en = spec.get('endian', '<')
     if two:
-        dim = struct.unpack('<8q', hraw[16:80])
-        bitpix = struct.unpack('<h', hraw[14:16])[0]
-        voxoff = struct.unpack('<q', hraw[168:176])[0]
+        dim = struct.unpack(en + '8q', hraw[16:80])
+        bitpix = struct.unpack(en + 'h', hraw[14:16])[0]
+        voxoff = struct.unpack(en + 'q', hraw[168:176])[0]
     else:
-        dim = struct.unpack('<8h', hraw[40:56])
-        bitpix = struct.unpack('<h', hraw[72:74])[0]
-        voxoff = int(struct.unpack('<f', hraw[108:112])[0])
+        dim = struct.unpack(en + '8h', hraw[40:56])
+        bitpix = struct.unpack(en + 'h', hraw[72:74])[0]
+        voxoff = int(struct.unpack(en + 'f', hraw[108:112])[0])
+    assert 1 <= dim[0] <= 7, (en, dim)
     n = bitpix // 8
     for x in dim[1:1 + dim[0]]:
         n *= x
@@ -466,20 +584,22 @@ def vol_layout(spec):
         bounds.append(pos)
         end = len(hraw) if fmt in PAIRS else voxoff
         while e0 and pos + 8 <= end:
-            esize = struct.unpack('<i', hraw[pos:pos + 4])[0]
+            esize = struct.unpack(en + 'i', hraw[pos:pos + 4])[0]
             if esize == 0:
                 break
             pl.append(esize - 8)
             bounds += [pos + 8, pos + esize]
             pos += esize
     if fmt in PAIRS:
-        pad = 0
-        assert voxoff == 0 and pos == len(hraw), (voxoff, pos, len(hraw))
+        pad = voxoff              # data offset inside the image file
+        assert pos == len(hraw) and len(ent['plain']['image']) == voxoff + n, (voxoff, pos, len(hraw))
+        if voxoff:
+            bounds += [voxoff, voxoff + n]
     else:
         pad = voxoff - pos
         bounds += [voxoff, voxoff + n]
     return dict(hs=hs, sniff=sniff, exts=exts, fixed=None, ftr=0, e0=e0, pl=pl, pad=pad, n=n, fl=0, bounds=bounds,
-                off=0 if fmt in PAIRS else voxoff)
+                off=voxoff)
 
 
 def tck_layout(spec):
@@ -503,6 +623,7 @@ def trk_layout(spec):
     p = 1000
     for n in spec['npts']:
         bounds.append(p + 4)
+        bounds += [p + 4 + j * (3 + nsc) * 4 for j in range(1, n + 1)]      # point-row boundaries
         p += 4 + n * (3 + nsc) * 4 + npr * 4
         bounds.append(p)
     assert p == len(raw), (p, len(raw))
@@ -517,7 +638,7 @@ def xml_layout(spec):
 
 # ------------------------------------------------------------------ cases
 
-def mk_case(spec, member, mode, k, stream='prefix', slicer=None):
+def mk_case(spec, member, mode, k, stream='prefix', slicer=None, how=''):
     """`mode`: volumes 1 mmap / 0 read / 2 tail read / 3,4 multi-segment partial read `dataobj[slicer]`
     (mmap False / True); tractograms 1 lazy / 0 eager (ignored for GIFTI/CIFTI-2)."""
     ent = files_of(spec)
@@ -529,6 +650,8 @@ def mk_case(spec, member, mode, k, stream='prefix', slicer=None):
     data = {'spec': spec, 'member': member, 'mode': mode, 'k': k, 'stream': stream}
     if slicer is not None:
         data['slicer'] = slicer
+    if how:
+        data['how'] = how
     extra = {}
     if comp:
         ck = (spec_key(spec), member, k)
@@ -559,11 +682,11 @@ def mk_case(spec, member, mode, k, stream='prefix', slicer=None):
             mem = 'cifti'
         fixed = '_' if L['fixed'] is None else str(L['fixed'])
         pl = ','.join(map(str, L['pl'])) or '-'
-        mm = int(mode == 1) if fmt != 'cifti2' else 1
+        mm = int(mode == 1) if (fmt != 'cifti2' or how) else 1
         tail = '_'
         if mode == 2:
             tail = str(L['n'] - L['n'] // spec['shape'][-1])
-        elif mode in (3, 4):
+        elif mode in (3, 4) and fmt != 'cifti2':
             isz = np.dtype(spec['dtype']).itemsize
             tail = f"s:{isz}:{','.join(map(str, spec['shape']))}:{fmt_slicer(slicer)}"
         line = (f"C08 vol {L['hs']} {L['sniff']} {L['exts']} {fixed} {L['ftr']} {mem} {L['e0']} {pl} {L['pad']} "
@@ -576,6 +699,9 @@ def mk_case(spec, member, mode, k, stream='prefix', slicer=None):
         L = tck_layout(spec)
         npts = ','.join(map(str, spec['npts'])) or '-'
         line = f"C08 tck {','.join(L['lines']) or '-'} {npts} {k} {m} {st}"
+        for fl in how.split('+'):
+            if fl.startswith('buf'):       # the chunked loop of `_read` with this buffer size
+                line = f"C08 tckb {int(fl[3:])} {','.join(L['lines']) or '-'} {npts} {k} {m} {st}"
     elif fmt == 'gifti':
         L = xml_layout(spec)
         line = f"C08 xml {len(plain)} {L['root_end']} {k} {m} {st}"
@@ -584,14 +710,18 @@ def mk_case(spec, member, mode, k, stream='prefix', slicer=None):
     shape_key = tuple(spec.get('shape', spec.get('npts', [spec.get('nv', 0)])))
     key = None if k in (0, total) else (fmt, shape_key, spec.get('dtype'), tuple(spec.get('exts', [])), comp,
                                         spec.get('nsc', 0), spec.get('npr', 0), member, mode, k,
-                                        fmt_slicer(slicer) if slicer is not None else None)
+                                        fmt_slicer(slicer) if slicer is not None else None, how,
+                                        spec.get('endian'), spec.get('pad'))
+    if fmt == 'cifti2' and mode in (3, 4):
+        line = None       # partial reads of CIFTI-2: oracle only (same ArrayProxy/fileslice code as NIfTI-2)
     if stream == 'codec-ambiguous':
         line = None       # the decompressor's view depends on the access pattern here: oracle only
     return Case(line, data, key, stream, extra)
 
 
 def case_from_data(d):
-    return mk_case(d['spec'], d['member'], d['mode'], d['k'], d.get('stream', 'prefix'), d.get('slicer'))
+    return mk_case(d['spec'], d['member'], d['mode'], d['k'], d.get('stream', 'prefix'), d.get('slicer'),
+                   d.get('how', ''))
 
 
 SLICERS = [[[None, None, None], 1], [[None, None, None], [None, None, 2]],
@@ -603,9 +733,9 @@ def slice_runs(spec, off, slicers=None):
     """Byte ranges [start, end) of the file that hold the elements selected by the SLICERS (independent of
     fileslice: element numbers through NumPy indexing of an F-ordered arange), merged into runs."""
     shape = tuple(spec['shape'])
-    if len(shape) != 3 or shape[0] < 64:
+    if shape[0] < 64 or (slicers is None and len(shape) != 3):
         return []
-    isz = np.dtype(spec['dtype']).itemsize
+    isz = np.dtype(spec.get('dtype', 'float32')).itemsize
     full = np.arange(int(np.prod(shape))).reshape(shape, order='F')
     out = []
     for sl in (slicers or SLICERS):
@@ -626,17 +756,21 @@ def slice_runs(spec, off, slicers=None):
 def impl(case):
     d = case.data
     spec, member, mode, k = d['spec'], d['member'], d['mode'], d['k']
+    how = d.get('how', '')
     ent = files_of(spec)
     d2, path = place(spec, member, k)
     try:
         in_child = mode == 1 and spec['fmt'] in VOLS and not spec.get('comp')
         expect = _SLAB[spec_key(spec)] if mode == 2 else ent['expect']
         if mode in (3, 4):
-            expect = canon_arr(make_array(spec)[slicer_of(d['slicer'])])
+            full = cifti_data(spec) if spec['fmt'] == 'cifti2' else make_array(spec)
+            expect = canon_arr(full[slicer_of(d['slicer'])])
+        if spec['fmt'] in ('tck', 'trk') and 'strm' in how.split('+'):
+            expect = _SLAB[spec_key(spec)]
         if in_child:
-            cls, err = _CHILD.run(spec, path, mode, expect)
+            cls, err = _CHILD.run(spec, path, mode, expect, None, how)
         else:
-            cls, err = _classify(spec, path, mode, expect, d.get('slicer'))
+            cls, err = _classify(spec, path, mode, expect, d.get('slicer'), how)
     finally:
         shutil.rmtree(d2, ignore_errors=True)
     case.extra = dict(case.extra or {}, err=err, total=len(ent['raw'][member]))
@@ -651,7 +785,12 @@ def oracle(case, out):
         total = len(files_of(spec)['raw'][d['member']])
     what = f"{spec['fmt']}{spec.get('comp', '')} member={d['member']} mode={d['mode']} cut at {k} of {total} bytes"
     if d.get('slicer') is not None:
-        what += f" partial read dataobj[{fmt_slicer(d['slicer'])}] of shape {spec['shape']} {spec['dtype']}"
+        what += f" partial read dataobj[{fmt_slicer(d['slicer'])}] of shape {spec['shape']} {spec.get('dtype')}"
+    if d.get('how'):
+        what += f" access={d['how']}"
+    if cls_err := (case.extra or {}).get('err'):
+        if 'not the data' in cls_err:
+            what += f" ({cls_err})"
     if (case.extra or {}).get('codec_contract') is False:
         return f'decompressor delivered bytes that are not a prefix of the plaintext: {what}'
     cls = out.split(' ')[0]
@@ -819,7 +958,7 @@ def cases(rng, tier):
                 if tier == 'quick' and fmt in ('nifti2pair', 'spm99', 'spm2') and comp in ('.bz2', '.zst'):
                     continue           # quick: the same reader path is swept through nifti1pair / analyze
                 spec = dict(base, comp=comp) if comp else dict(base)
-                big = fmt in ('gifti', 'cifti2')
+                big = fmt == 'cifti2' or (fmt == 'gifti' and comp not in ('', '.gz'))
                 every = tier == 'thorough' or not (big and tier == 'quick')
                 skip = (2,) if tier == 'quick' and fmt in ('nifti2pair', 'spm99', 'spm2') else ()
                 sweep(rng, spec, every, 200, out, skip_modes=skip)
@@ -865,7 +1004,121 @@ def cases(rng, tier):
                 ks = sorted(k for k in ks if 0 <= k <= total)
             for k in ks:
                 out.append(mk_case(spec, 'image', 3 + si % 2, k, 'multi-segment', sl))
+    extra_streams(rng, tier, out)
     return out
+
+
+VOL_ACCESS = [(1, 'fdata'), (0, 'fdata32+kfo'), (1, 'mmr+asarray'), (0, 'unscaled+cls'), (1, 'kfo+plib'),
+              (1, 'cls+fdata+kfo'), (0, 'plib+fdata'), (2, 'kfo+cls')]
+PAIR_ACCESS = [(0, 'cross'), (1, 'cross+fdata+kfo')]
+CIFTI_SLICERS = [[1, [None, None, None]], [[5, 70, None], [None, None, 2]]]
+
+
+def bound_cuts(rng, spec, member, nrand, pm=1, extra=()):
+    total = len(files_of(spec)['raw'][member])
+    ks = {0, 1, total, total - 1, total - 2, total - 9}
+    if not spec.get('comp'):
+        for b in list(bounds_of(spec)) + list(extra):
+            ks.update(range(b - pm, b + pm + 1))
+    ks.update(rng.randrange(0, total + 1) for _ in range(nrand))
+    return sorted(k for k in ks if 0 <= k <= total)
+
+
+def extra_streams(rng, tier, out):
+    """Dimensions beyond the default load + np.asanyarray(dataobj) of default-configured files."""
+    quick = tier == 'quick'
+    # --- access: how the data are obtained (get_fdata / get_unscaled / np.asarray, keep_file_open, mmap='r',
+    #     Class.from_filename, pathlib, pair opened through the other member) x unusual-but-valid files
+    #     (big-endian header, data offset beyond the minimum, 4D), cut at every structural boundary +-1.
+    r1, r2, r3 = rng.randrange(2), rng.randrange(3), rng.randrange(2)
+    vfmts = ['nifti1', 'nifti2', 'nifti1pair', 'nifti2pair', 'analyze', 'spm99', 'spm2', 'mgh', 'cifti2']
+    for i, fmt in enumerate(vfmts):
+        if fmt == 'cifti2':
+            base = {'fmt': fmt, 'shape': [2, 3], 'seed': rng.randrange(1, 10 ** 6)}
+        else:
+            base = {'fmt': fmt, 'shape': [2, 2, 2, 3] if (i + r3) % 2 else [3, 2, 2],
+                    'dtype': rng.choice(['int16', 'float32', 'uint8', 'int32']), 'seed': rng.randrange(1, 10 ** 6)}
+            if fmt != 'mgh':
+                base['endian'] = '>' if (i + r1) % 2 == 0 else '<'
+                pad = [0, 16, 32][(i + r2) % 3]
+                if pad:
+                    base['pad'] = pad
+            if fmt in NIFTI:
+                base['exts'] = rng.choice([[5], [3, 20], [24]])
+        comps = [''] + ([c for c in compressions(fmt) if c] if not quick
+                        else (['.gz'] if fmt in ('nifti1', 'mgh', 'analyze') else []))
+        for comp in comps:
+            spec = dict(base, comp=comp) if comp else dict(base)
+            acc = list(VOL_ACCESS) + (PAIR_ACCESS if fmt in PAIRS else [])
+            if fmt == 'cifti2':
+                acc = [(m_, h_) for m_, h_ in acc if m_ != 2]
+            for member in members_of(fmt):
+                ks = bound_cuts(rng, spec, member, 8 if quick else 30, 1)
+                for j, (mode, how) in enumerate(acc):
+                    for n_, k in enumerate(ks):
+                        if comp and quick and (n_ + j) % 3:
+                            continue          # compressed + quick: every cut with a third of the variants
+                        out.append(mk_case(spec, member, mode, k, 'access', None, how))
+    # --- partial multi-segment reads for the classes / members / access variants the main stream leaves out
+    more = [('analyze', 'header', ''), ('nifti1pair', 'image', ''), ('nifti1pair', 'header', ''), ('spm99', 'image', ''),
+            ('nifti2pair', 'image', '.gz'), ('cifti2', 'image', '')]
+    for fmt, member, comp in more:
+        if comp not in compressions(fmt):
+            continue
+        n0 = rng.choice([80, 72, 96])
+        if fmt == 'cifti2':
+            spec = {'fmt': fmt, 'shape': [n0, 3], 'seed': rng.randrange(1, 1000)}
+            slicers = CIFTI_SLICERS
+        else:
+            spec = {'fmt': fmt, 'shape': [n0, 4, 3], 'dtype': rng.choice(['int16', 'float32']),
+                    'seed': rng.randrange(1, 1000), 'endian': rng.choice('<>')}
+            if rng.randrange(2):
+                spec['pad'] = 16 * rng.choice([1, 2, 5])
+            if fmt in NIFTI:
+                spec['exts'] = [5]
+            slicers = SLICERS[:2] if quick else SLICERS
+        if comp:
+            spec['comp'] = comp
+        L = vol_layout(spec)
+        for si, sl in enumerate(slicers):
+            ext = []
+            if member == 'image' and not comp:
+                for o, e in slice_runs(spec, L['off'], [sl]):
+                    ext += [o, e]
+                if len(ext) > 24:
+                    ext = ext[:8] + ext[-16:]
+            ks = bound_cuts(rng, spec, member, 10 if quick else 200, 1 if quick else 2, ext)
+            how = ['', 'kfo', 'cls+kfo', 'plib'][(si + rng.randrange(4)) % 4] if fmt != 'cifti2' else ''
+            for k in ks:
+                out.append(mk_case(spec, member, 3 + si % 2, k, 'multi-segment-more', sl, how))
+    # --- TCK: the chunked loop of `_read` run with small buffers (a streamline / the terminator spans chunks)
+    for v in range(1 if quick else 4):
+        spec = {'fmt': 'tck', 'npts': [rng.choice([1, 2, 3, 4]) for _ in range(rng.choice([2, 3, 4]))],
+                'seed': rng.randrange(1, 10 ** 6)}
+        total = len(files_of(spec)['raw']['image'])
+        off = tck_layout(spec)['off']
+        hows = [('buf12', 1), ('buf12', 0), ('buf24+strm', 1), ('buf36+cls', 0), ('buf60+fobj', 1)]
+        if not quick:
+            hows += [('buf24', 0), ('buf36+cls', 1), ('buf60+fobj', 0), ('buf48', 1), ('buf48', 0), ('buf24', 1)]
+        for how, mode in hows:
+            if True:
+                for k in range(max(0, off - (2 if quick else 8)), total + 1):
+                    out.append(mk_case(spec, 'image', mode, k, 'tck-chunked', None, how))
+    # --- TRK: per-streamline properties with / without per-point scalars, class loader / file object /
+    #     `.streamlines` pass, cuts at every point-row and record boundary +-2
+    for nsc, npr in [(0, 0), (2, 0), (1, 2), (0, 1)][:None if not quick else 4]:
+        spec = {'fmt': 'trk', 'npts': [rng.choice([1, 2, 3]) for _ in range(rng.choice([2, 3]))],
+                'seed': rng.randrange(1, 10 ** 6)}
+        if nsc:
+            spec['nsc'] = nsc
+        if npr:
+            spec['npr'] = npr
+        ks = bound_cuts(rng, spec, 'image', 10 if quick else 200, 2)
+        for mode, how in [(1, 'cls'), (0, 'fobj'), (1, 'strm'), (0, 'cls'), (1, 'fobj')][:3 if quick else 5]:
+            for k in ks:
+                if quick and k < 980 and k % 3:
+                    continue
+                out.append(mk_case(spec, 'image', mode, k, 'trk-access', None, how))
 
 
 # ------------------------------------------------------------------ generated constants
@@ -885,6 +1138,17 @@ def regen():
         fmts.append(f'  ⟨{hs}, {K._meta_sniff_len}, {exts}, none, 0⟩')
     fmts.append(f'  ⟨{mg.MGHHeader._hdrdtype.itemsize}, {nib.MGHImage._meta_sniff_len}, false, some {mg.DATA_OFFSET}, '
                 f'{mg.MGHHeader._ftrdtype.itemsize}⟩')
+    # the chunk size `TckFile._read` really requests with its default `buffer_size` (measured: a recording file object)
+    import io
+    sizes = []
+
+    class _Rec(io.BytesIO):
+        def readinto(self, b):
+            sizes.append(len(b))
+            return super().readinto(b)
+    list(tck.TckFile._read(_Rec(tck.TckFile.EOF_DELIMITER.astype('<f4').tobytes()),
+                           {'_dtype': np.dtype('<f4'), '_offset_data': 0}))
+    tck_buf = sizes[0] if sizes else 0
     sig = inspect.signature(nib.filebasedimages.FileBasedImage.path_maybe_image)
     sniff_max = sig.parameters['sniff_max'].default
     body = f'''import NibabelModel.Model.C08
@@ -909,6 +1173,8 @@ def tckMagic : List Nat := {list(tck.TckFile.MAGIC_NUMBER)}
 def tckFiberDelim : List Nat := {list(tck.TckFile.FIBER_DELIMITER.astype('<f4').tobytes())}
 def tckEofDelim : List Nat := {list(tck.TckFile.EOF_DELIMITER.astype('<f4').tobytes())}
 def skipThresh : Nat := {nib.fileslice.SKIP_THRESH}
+/-- bytes per `readinto` of `TckFile._read` with its default `buffer_size` (measured on the running code) -/
+def tckBufferBytes : Nat := {tck_buf}
 
 end Nb.C08.Gen
 '''
